@@ -137,7 +137,9 @@ theorem step_rinv {c : Conn} (h : RInv c) (op : Op) : RInv (step c op).1 := by
   · exact rxMaxData_rinv h _
   · exact rxMaxStreamData_rinv h _ _
   · exact rxMaxStreams_rinv h _ _
-  · exact transportParams_rinv h _
+  · rcases rxTransportParams_cases c _ with he | he <;> rw [he]
+    · exact h
+    · exact transportParams_rinv h _
   · exact unblockStreams_rinv h _
   · exact rxStopSending_rinv h _
   · exact rxStreamDataBlocked_rinv h _
